@@ -132,6 +132,9 @@ func (n *EvalUnaryNode) EvalBool(scope *Scope, executionState ExecutionState) (b
 		return false, err
 	}
 	if typ == ast.TBool {
+		if n.operator != ast.TokenNot {
+			return false, fmt.Errorf("invalid math operator %v for type %s", n.operator, typ)
+		}
 		result, err := n.nodeEvaluator.EvalBool(scope, executionState)
 		if err != nil {
 			return false, err
